@@ -36,6 +36,11 @@ pub impl Vec<SpeedLimitPoint> {
         debug_assert!(self.is_valid());
         debug_assert!(self.first().unwrap().offset <= speed_limit.offset_start);
 
+        // A zero-length speed limit restricts nothing
+        if speed_limit.offset_start == speed_limit.offset_end {
+            return;
+        }
+
         // If the new speed is entirely after the end of all other speed points
         if self.last().unwrap().offset <= speed_limit.offset_start {
             let speed_old = self.last().unwrap().speed_limit;
@@ -80,6 +85,9 @@ pub impl Vec<SpeedLimitPoint> {
                 idx_end -= 1;
             }
 
+            // Speed in effect at offset end before any point is inserted
+            let speed_old_end = self[idx_end].speed_limit;
+
             // If the speed starts at an offset not already in speeds
             if speed_limit.offset_start < self[idx_start].offset {
                 let speed_old = self[idx_start - 1].speed_limit;
@@ -101,7 +109,7 @@ pub impl Vec<SpeedLimitPoint> {
 
             // If the old speed does not end at offset end
             if self[idx_end].offset < speed_limit.offset_end {
-                let speed_old = self[idx_end].speed_limit;
+                let speed_old = speed_old_end;
 
                 // If the speed is different, insert the old speed at offset end
                 if speed_old != min_speed(speed_old, speed_limit.speed) {
